@@ -253,6 +253,13 @@ def install(I):
                 kind = 'chanptr'
         if kind is None:
             return False, None
+        if kind == 'chanptr' and isinstance(cur, Chan) and cur not in w.chan_pool:
+            # a channel made before the goroutines start (e.g. by a constructor): the cell is read as immutable; a
+            # goroutine that writes it makes the job inconclusive (store_hook)
+            if not hasattr(w, 'init_chan_cells'):
+                w.init_chan_cells = set()
+            w.init_chan_cells.add(pkey(p))
+            return False, None
         name = w.obj('cell', pkey(p), init=cell_init(I, w, cur, kind))
         w.objs[('cell', pkey(p))]['ckind'] = kind
         th = w.cur
@@ -312,6 +319,8 @@ def install(I):
             return False
         cur = p.c[p.i]
         key = ('cell', pkey(p))
+        if pkey(p) in getattr(w, 'init_chan_cells', ()) or (isinstance(cur, Chan) and cur not in w.chan_pool):
+            raise Inconclusive('a goroutine overwrites a channel cell that was initialised before the goroutines started')
         kind = w.objs[key].get('ckind') if key in w.objs else None
         if kind is None:
             if isinstance(v, bool) or (is_sym(v) and z3.is_bool(v)):
